@@ -248,6 +248,48 @@ func (d Dec) Plain() string {
 	return s
 }
 
+// FloatIs reports whether the numeral's value is exactly a float64 (no
+// rounding at all when parsed).
+func FloatIs(text string) bool {
+	d, ok := ParseDec(text)
+	if !ok {
+		return false
+	}
+	f, err := strconv.ParseFloat(text, 64)
+	if err != nil {
+		return false
+	}
+	r, ok := new(big.Rat).SetString(strconv.FormatFloat(f, 'f', -1, 64))
+	if !ok {
+		return false
+	}
+	// FormatFloat prints the shortest text that parses back to f, which need
+	// not be f's exact value: compare with the exact value of f
+	exact := new(big.Rat).SetFloat64(f)
+	return exact != nil && exact.Cmp(d.r) == 0 && r.Cmp(d.r) == 0
+}
+
+// FloatOpExact reports whether a +/- b computed in float64 and re-serialised
+// the way the implementation does it equals the exact decimal result.
+func FloatOpExact(a, b string, minus bool) bool {
+	x, ok1 := ParseDec(a)
+	y, ok2 := ParseDec(b)
+	fa, e1 := strconv.ParseFloat(a, 64)
+	fb, e2 := strconv.ParseFloat(b, 64)
+	if !ok1 || !ok2 || e1 != nil || e2 != nil {
+		return false
+	}
+	var want Dec
+	var got float64
+	if minus {
+		want, got = x.Sub(y), fa-fb
+	} else {
+		want, got = x.Add(y), fa+fb
+	}
+	back, ok := ParseDec(strconv.FormatFloat(got, 'f', -1, 64))
+	return ok && back.Cmp(want) == 0
+}
+
 // FloatExact reports whether the numeral text survives a float64 round trip
 // through strconv with value preserved (used for the float-architecture guard).
 func FloatExact(text string) bool {
